@@ -283,7 +283,16 @@ def replay_stages(ctx, cands):
             r = run_driver(ctx, argv, stdin, env={'FAIL_WRITE_AT': '0'})
             c.replay = {'argv': argv, 'stdin': show(stdin), 'env': 'FAIL_WRITE_AT=0', 'expected': 'result=err', 'result': r['result']}
             c.status = 'reproduced' if not str(r['result']).startswith('err') else 'unit'
+        elif stage == 'PreSet' and c.role.startswith('contract') is False and False:
+            pass
         else:
+            if stage == 'PreSet':
+                # a --set value is computed once, from the expression alone: it never depends on a record
+                r = run_jawk(ctx, ['--set', 'v=(default . 7)', '--set', '@m=(+ . 1)', '--select', '(default :v)=v', '--select', '(default @m)=m', '--style', 'consise'], b'1 2 3')
+                exp = '{"v":null,"m":2}\n{"v":null,"m":3}\n{"v":null,"m":4}\n'
+                if show(r['stdout']) != exp:
+                    c.replay = {'argv': ['--set', 'v=(default . 7)', '--set', '@m=(+ . 1)', '--select', '(default :v)=v', '--select', '(default @m)=m'], 'stdin': '1 2 3', 'expected': exp, 'actual': show(r['stdout'])}
+                    c.status = 'reproduced'; continue
             kw = {'Filter': {'filt': '.f'}, 'Splitter': {'split': '.l'}, 'Selection': {'selects': [('.a', 'a')]}, 'PreSet': {}, 'Uniquness': {'unique': True}}[stage]
             exp = refpipe.pipeline(ROWS, **kw)
             r = run_jawk(ctx, ARGV[stage] + ['--style', 'consise'], ' '.join(json.dumps(x) for x in ROWS).encode())
